@@ -67,6 +67,17 @@ func (v *VerifC19Session) Wake() {
 	}
 }
 
+// Swap stores a Profile to be swapped in by the next turn of listen (what a MvProfile order does).
+func (v *VerifC19Session) Swap(p cfg.Profile) { v.s.swap = p }
+
+// Order hands a settings packet (MvTime ...) to the client's real internal task handler.
+func (v *VerifC19Session) Order(n *com.Packet) error {
+	return muxHandleInternal(v.s, n, &com.Packet{})
+}
+
+// Sleep returns the Session's current sleep setting.
+func (v *VerifC19Session) Sleep() time.Duration { return v.s.sleep }
+
 // Wait calls the real (*Session).wait once.
 func (v *VerifC19Session) Wait() { v.s.wait() }
 
